@@ -210,9 +210,31 @@ def gen_steps(spec, rng):
                         cands.append((p2, k2, v2))
         return rng.choice(cands)
 
+    # complex-step phase (complex allocation only): one nonlinear vector, and often its output/residual twin, is
+    # switched into complex-step mode first and most of the following operations go through it, so that every
+    # vector operation is also exercised on data with non-zero imaginary parts
+    focus = None
+    if alloc and rng.random() < 0.6:
+        cands = [(p_, k_) for p_, _ in syss for k_ in KINDS if vec_info(p_, k_, 'nonlinear')[1] > 0]
+        fp, fk = rng.choice(cands)
+        focus = (fp, fk, 'nonlinear')
+        cs[focus] = True
+        steps.append({'sys': fp, 'kind': fk, 'vec': 'nonlinear', 'cs': False, 'op': 'cs', 'on': True})
+        if fk != 'input' and rng.random() < 0.6:
+            k2 = 'residual' if fk == 'output' else 'output'
+            cs[(fp, k2, 'nonlinear')] = True
+            steps.append({'sys': fp, 'kind': k2, 'vec': 'nonlinear', 'cs': False, 'op': 'cs', 'on': True})
+        nsteps += len(steps) + 1
+    FOCUS_OPS = ['dot', 'dot', 'dot', 'norm', 'add_scal_vec', 'imul', 'iadd', 'isub', 'set_val', 'inpl_vec',
+                 'inpl_val', 'set_vec', 'get', 'get_slice', 'add_to_slice', 'abs_set', 'scale', 'cs']
+
     while len(steps) < nsteps:
-        path = rng.choice(syss)[0]
-        kind, vn = rng.choice(KINDS), rng.choice(VECS)
+        on_focus = focus is not None and rng.random() < 0.75
+        if on_focus:
+            path, kind, vn = focus
+        else:
+            path = rng.choice(syss)[0]
+            kind, vn = rng.choice(KINDS), rng.choice(VECS)
         chain, L = vec_info(path, kind, vn)
         if L == 0 and rng.random() < 0.8:
             continue
@@ -221,9 +243,10 @@ def gen_steps(spec, rng):
         cplx = is_cplx(vn)
         base = {'sys': path, 'kind': kind, 'vec': vn, 'cs': mycs}
         lay = chain[-1]
-        op = rng.choice(['set_val', 'set_val', 'iadd', 'isub', 'imul', 'inpl_val', 'inpl_vec', 'inpl_vec',
-                         'add_scal_vec', 'set_vec', 'dot', 'norm', 'get', 'get', 'abs_set', 'set_var',
-                         'get_slice', 'add_to_slice', 'set_vals', 'scale', 'scale', 'cs'])
+        op = rng.choice(FOCUS_OPS) if on_focus else rng.choice(
+            ['set_val', 'set_val', 'iadd', 'isub', 'imul', 'inpl_val', 'inpl_vec', 'inpl_vec',
+             'add_scal_vec', 'set_vec', 'dot', 'norm', 'get', 'get', 'abs_set', 'set_var',
+             'get_slice', 'add_to_slice', 'set_vals', 'scale', 'scale', 'cs'])
         if op == 'cs':
             if not cplx:
                 continue
@@ -468,7 +491,9 @@ class C33(Spec):
             'of rank 1-3, ref/ref0/res_ref scalars and arrays, dyadic units with offsets, optional complex '
             'allocation) x random sequences of 3-10 vector operations on root and sub-system vectors of the six '
             '(kind, vec_name) arrays, with index forms full/slice/int/array (duplicates, negatives), '
-            'Vector/array/scalar operands, named access in four forms, complex-step toggles and scaling pairs; '
+            'Vector/array/scalar operands, named access in four forms, complex-step toggles and scaling pairs; with complex '
+            'allocation 60% of the sequences start a complex-step phase on one nonlinear vector (and its twin) through '
+            'which most operations (dot, norm, add_scal_vec, imul, ...) then run on data with imaginary parts; '
             'a case is non-trivial when distinct')
     assumptions = ['NumPy is the reference for the oracle (a plain ndarray mirror of the six root arrays)',
                    'the variable order of a system (sub-systems sorted by name, variables in declaration order) is '
